@@ -112,6 +112,40 @@ def h_for_each(em, name, r, args, n, rvalue):
     em.rules['std::for_each-as-loop(lambda inlined)'] += 1
     return '((void)0)'
 
+def decomposition(em, d, out, ind):
+    """structured binding.  Supported: `auto [a, b] = std::minmax_element(begin(c), end(c), cmp)` over a vector — two index
+    variables: a = the FIRST smallest element, b = the LAST largest one (the algorithm's contract), cmp inlined."""
+    binds = [c for c in d.get('inner', []) if c.get('kind') == 'BindingDecl']
+    init = [c for c in d.get('inner', []) if c.get('kind') != 'BindingDecl' and c.get('kind') not in ('FullComment',)]
+    call = em.skip(init[0]) if init else None
+    name = None
+    if call is not None and call.get('kind') == 'CallExpr':
+        try: dd, r = em.callee_decl(call); name = r.get('name')
+        except Unsupported: name = None
+    if name != 'minmax_element' or len(binds) != 2 or len(call['inner']) != 4:
+        raise Unsupported('declaration DecompositionDecl at ' + em.where(d))
+    first, last, lam = call['inner'][1:4]
+    cont = em.find_container_in(first); ct = em.container_type(first)
+    if cont is None or ct is None: raise Unsupported('minmax_element over unknown container at ' + em.where(d))
+    em.require_full_range(first, last, d)
+    mn = em.tmp('min'); mx = em.tmp('max'); j = em.tmp('j')
+    saved = em.pre; em.pre = []
+    c_min = inline_lambda(em, lam, ['%s.data[%s]' % (cont, j), '%s.data[%s]' % (cont, mn)])      # cmp(x_j, x_min): x_j is smaller
+    c_max = inline_lambda(em, lam, ['%s.data[%s]' % (cont, j), '%s.data[%s]' % (cont, mx)])      # !cmp(x_j, x_max): x_j is not smaller: the LAST largest
+    inner = em.pre; em.pre = saved
+    if inner: raise Unsupported('minmax_element comparator needs statements at ' + em.where(d))
+    em.flush(out, ind)
+    out.append(ind + 'size_t %s = 0; size_t %s = 0;' % (mn, mx))
+    out.append(ind + '{ size_t %s; for (%s = 1; %s < %s.size; ++%s)' % (j, j, j, cont, j))
+    out.append(ind + em.loop_marker())
+    out.append(ind + '  { if (%s) %s = %s; if (!(%s)) %s = %s; } }' % (c_min, mn, j, c_max, mx, j))
+    for b, v in zip(binds, (mn, mx)):
+        em.vars[b['id']] = ('val', v); em.iter_of[b['id']] = cont; em.iter_ty[b['id']] = ct
+        for x in b.get('inner', []):          # the hidden holder variable of a tuple-like binding
+            rd = x.get('referencedDecl', {})
+            if rd.get('id'): em.vars[rd['id']] = ('val', v); em.iter_of[rd['id']] = cont; em.iter_ty[rd['id']] = ct
+    em.rules['structured-binding(minmax_element)'] += 1
+
 def install(em):
     em.lambda_n = {}
     em.hooks['lib_call'].append(h_accumulate)
